@@ -2,12 +2,15 @@ package main
 
 import (
 	"bytes"
+	"io"
+	"io/ioutil"
 	"time"
 
 	. "vh/lib"
 
 	"github.com/cnotch/ipchub/av/codec"
 	"github.com/cnotch/ipchub/av/codec/aac"
+	"github.com/cnotch/ipchub/av/format/hls"
 	"github.com/cnotch/ipchub/av/format/mpegts"
 	"github.com/cnotch/xlog"
 )
@@ -27,6 +30,24 @@ func (c *countingWriter) WriteMpegtsFrame(f *mpegts.Frame) error {
 	err := c.w.WriteMpegtsFrame(f)
 	c.done <- struct{}{}
 	return err
+}
+
+// deferredWriter keeps every frame the way hls.SegmentGenerator keeps the first audio
+// frame of a group (a struct copy, Header and Payload slices retained) and writes them
+// only at the end: a packetizer that reuses a buffer for Header shows here.
+type deferredWriter struct{ kept []mpegts.Frame }
+
+func (d *deferredWriter) WriteMpegtsFrame(f *mpegts.Frame) error {
+	d.kept = append(d.kept, *f)
+	return nil
+}
+
+func readSeg(r io.Reader) []byte {
+	b, _ := ioutil.ReadAll(r)
+	if c, ok := r.(io.Closer); ok {
+		c.Close()
+	}
+	return b
 }
 
 func toFrame(v Val) *codec.Frame {
@@ -71,9 +92,14 @@ func init() {
 		vm := &codec.VideoMeta{Codec: "H264", Sps: c.At(1).Bytes(), Pps: c.At(2).Bytes()}
 		am := &codec.AudioMeta{Codec: "AAC", Sps: c.At(3).Bytes()}
 		frames := c.At(4).List()
-		if c.At(0).Int() == 0 {
-			vp := mpegts.NewH264Packetizer(vm, w)
-			ap := mpegts.NewAacPacketizer(am, w)
+		if c.At(0).Int() == 0 || c.At(0).Int() == 2 {
+			var fw mpegts.FrameWriter = w
+			dw := &deferredWriter{}
+			if c.At(0).Int() == 2 {
+				fw = dw
+			}
+			vp := mpegts.NewH264Packetizer(vm, fw)
+			ap := mpegts.NewAacPacketizer(am, fw)
 			for _, f := range frames {
 				fr := toFrame(f)
 				if fr.MediaType == codec.MediaTypeVideo {
@@ -84,6 +110,11 @@ func init() {
 					if err := ap.Packetize(fr); err != nil {
 						return Panic("audio: " + err.Error())
 					}
+				}
+			}
+			for i := range dw.kept {
+				if err := w.WriteMpegtsFrame(&dw.kept[i]); err != nil {
+					return Panic("deferred: " + err.Error())
 				}
 			}
 			return L(I(0), B(buf.Bytes()))
@@ -116,6 +147,46 @@ func init() {
 		}
 		mux.Close()
 		return L(I(0), B(append([]byte(nil), buf.Bytes()...)))
+	}
+
+	// (0 sps pps asc frames fragment rate) -> (0 (segment ...)): the packetizers write into a real
+	// hls.SegmentGenerator (memory segments); every segment that appears in the playlist is read once
+	commands["C09_hls"] = func(c Val) (out Val) {
+		defer func() {
+			if r := recover(); r != nil {
+				out = L(I(1))
+			}
+		}()
+		pl := hls.NewPlaylist()
+		sg, err := hls.NewSegmentGenerator(pl, "/c09", int(c.At(5).Int()), "", int(c.At(6).Int()), nil)
+		if err != nil {
+			return Panic("NewSegmentGenerator: " + err.Error())
+		}
+		vm := &codec.VideoMeta{Codec: "H264", Sps: c.At(1).Bytes(), Pps: c.At(2).Bytes()}
+		am := &codec.AudioMeta{Codec: "AAC", Sps: c.At(3).Bytes()}
+		vp := mpegts.NewH264Packetizer(vm, sg)
+		ap := mpegts.NewAacPacketizer(am, sg)
+		segs := []Val{}
+		next := 1
+		for _, f := range c.At(4).List() {
+			fr := toFrame(f)
+			if fr.MediaType == codec.MediaTypeVideo {
+				vp.Packetize(fr)
+			} else {
+				ap.Packetize(fr)
+			}
+			for {
+				r, _, err := pl.Segment(next)
+				if err != nil {
+					break
+				}
+				segs = append(segs, B(readSeg(r)))
+				next++
+			}
+		}
+		sg.Close()
+		pl.Close()
+		return L(I(0), L(segs...))
 	}
 
 	// (profile sidx chan size) -> aac.NewADTSHeader
